@@ -916,7 +916,9 @@ def rule_pa_top(cx, rep, port):
     _find_top_semantics(rep, ft, port)
     sa = p.func(mod, 'separate_actions')
     ts = node_text(sa, 8000)
-    oktop = ("statement_params['top'] = int(match.group(1))" in ts) if port == 'py' else ("statement_params['top'] = parseInt(match[1])" in ts)
+    def is_group1(e):
+        return (isinstance(e, ast.Call) and isinstance(e.func, ast.Attribute) and e.func.attr == 'group' and len(e.args) == 1 and const_value(e.args[0]) == 1) or (isinstance(e, ast.Subscript) and const_value(e.slice) == 1)
+    oktop = any(isinstance(n, ast.Assign) and isinstance(n.targets[0], ast.Subscript) and const_value(n.targets[0].slice) == 'top' and isinstance(n.value, ast.Call) and dotted(n.value.func) in ('int', 'parseInt') and n.value.args and is_group1(n.value.args[0]) for n in ast.walk(sa))
     rep.decide(oktop, 'TOP capture', sa, 'TOP N stores the integer N', 'TOP N no longer stores the integer N')
     sites = [s for s in regex_sites(cx, port) if s.func is sa and s.pattern and 'TOP' in s.pattern.upper() and '[0-9]+' in s.pattern]
     rep.decide(len(sites) == 1 and sites[0].pattern.lstrip('(?i)').startswith('^ *TOP *([0-9]+) '), 'TOP pattern', sites[0].node if sites else sa, 'TOP <digits> at the start of the select list', 'TOP pattern changed')
@@ -924,7 +926,9 @@ def rule_pa_top(cx, rep, port):
     st = [n for n in walk_no_nested(sp) if isinstance(n, ast.Assign) and (dotted(n.targets[0]) or '').endswith('top_count')]
     rep.decide(len(st) == 1 and node_text(st[0].value) == 'find_top(rb_actions)', 'top_count', st[0] if st else sp, 'top_count = find_top(actions)', 'top_count is not the result of find_top')
     # DISTINCT [COUNT]
-    okd = ("statement_params['distinct'] = True" in ts and "statement_params['distinct_count'] = True" in ts)
+    def flag_set(name):
+        return any(isinstance(n, ast.Assign) and isinstance(n.targets[0], ast.Subscript) and const_value(n.targets[0].slice) == name and is_true(n.value) for n in ast.walk(sa))
+    okd = flag_set('distinct') and flag_set('distinct_count')
     rep.decide(okd, 'DISTINCT flags', sa, 'DISTINCT and DISTINCT COUNT set their flags', 'DISTINCT / DISTINCT COUNT flags changed')
     sd = [s for s in regex_sites(cx, port) if s.func is sa and s.pattern and 'DISTINCT' in s.pattern.upper()]
     rep.decide(len(sd) == 1 and '(COUNT)?' in sd[0].pattern, 'DISTINCT pattern', sd[0].node if sd else sa, 'DISTINCT optionally followed by COUNT', 'DISTINCT pattern changed')
